@@ -45,6 +45,17 @@ def base_scenarios(tier, rng):
             i += 1
             out.append({"id": "b%d" % i, "connack": "accept", "steps": ["sample", a, b + "!", "wait", "sample"]})
             i += 1
+    # the connection ends because an acknowledgement of inbound traffic cannot be written (half-broken transport):
+    # an abnormal end like any other -- Closed with the non-nil error, Err() non-nil, Done() closed
+    for step, pk in (("in1", "PUBACK"), ("in2", "PUBREC"), ("in2", "PUBCOMP")):
+        for o in ("cutBefore", "cutAfter"):
+            for tail in ([], ["disconnect"]):
+                out.append({"id": "b%d" % i, "connack": "accept", "faults": [{"p": pk, "n": 1, "o": o}], "steps": ["sample", step, "wait"] + tail + ["sample"]})
+                i += 1
+    # ... and healthy inbound traffic does not end it
+    for step in ("in1", "in2"):
+        out.append({"id": "b%d" % i, "connack": "accept", "steps": ["sample", step, "sleep", "sample", "disconnect", "wait", "sample"]})
+        i += 1
     reps = 3 if tier == "quick" else 30
     racing = [s for s in out if any(x.endswith("!") for x in s["steps"])]
     for r in range(reps):
@@ -79,6 +90,11 @@ def reconn_scenarios(tier, rng):
     # Disconnect arriving while a keep-alive PINGREQ is in flight (held inside its write)
     for wk in (3, 4):
         sc = S("k-discping-%d" % wk, [P(1)], ["conn"], [], opts=dict(opts, sampleAfterMs=60))
+        sc["reqs"].append({"k": "disconnect", "at": "write:%d" % wk})
+        out.append(sc)
+        # ... and the PINGRESP of that ping never comes: the ping ends with the connection Disconnect closes (F17)
+        # (the reconnect loop is delayed at its wake-up so that the keep-alive goroutine sees the failed ping first)
+        sc = S("k-discping-silent-%d" % wk, [P(1)], ["conn"], [{"k": wk, "o": "dropAck"}], opts=dict(opts, sampleAfterMs=80, holdLoopWakeMs=30))
         sc["reqs"].append({"k": "disconnect", "at": "write:%d" % wk})
         out.append(sc)
     out.append(S("k-refused2", [P(1), P(1)], ["conn", "idle"], [{"p": "PUBLISH", "n": 1, "o": "cutAfter"}], connacks=[{}, {"code": 3}], opts=opts))
@@ -145,7 +161,9 @@ def run(tier):
     results = {}
     results.update(run_conn(binary, base, 4))
     results.update(run_conn(binary, hold, 1))
-    results.update(rf.run_scenarios(binary, rec, conc=2))
+    hooked = [s for s in rec if s.get("opts", {}).get("holdLoopWakeMs")]
+    results.update(rf.run_scenarios(binary, [s for s in rec if s not in hooked], conc=2))
+    results.update(rf.run_scenarios(binary, hooked, conc=1))      # process-global hook: one scenario per process at a time
     byid = {s["id"]: s for s in base + hold + rec}
     crashes = [r_ for r_ in results.values() if "crash" in r_]
     for c in crashes:
